@@ -541,6 +541,9 @@ func TestC16(t *testing.T) {
 		g := rng(r, "c16", i)
 		cfg := c16Cfg{Mode: []string{"PP", "PP", "FEP"}[g.Intn(3)], Target: 30 + g.Intn(120), MaxJump: []int{1, 2, 5, 25}[g.Intn(4)],
 			EventPct: []int{10, 40, 80}[g.Intn(3)], ErrPct: []int{0, 0, 10}[g.Intn(3)]}
+		if m := os.Getenv("VERIF_C16_MODE"); m != "" { // diagnosis aid: force one mode
+			cfg.Mode = m
+		}
 		if cfg.Mode == "PP" {
 			cfg.Removals = g.Intn(2) == 0
 		}
